@@ -264,6 +264,9 @@ func drawConfig(tp *kernel.Tape, prop, tier string) Config {
 		c.WTrig = tp.Range("cfg.w.trig", 1, 8)
 		c.MaxCrashes = tp.Range("cfg.maxcrash", 1, 6)
 		c.SlowFlush = tp.Chance("cfg.slowflush", 1, 2)
+		if prop == "C02" {
+			c.SlowFlush = tp.Chance("cfg.slowflush2", 3, 4)
+		}
 		c.DBErr = tp.Chance("cfg.dberr", 1, 4)
 	}
 	if prop == "C07" {
@@ -374,6 +377,7 @@ func (s *Sim) setup() error {
 		}
 		n.led = newSimLedger(s, n)
 		n.slowFlush = c.SlowFlush && !adv
+		n.led.genesisSlow = n.slowFlush
 		n.dbPath = filepath.Join(s.dir, fmt.Sprintf("n%d-0.db", id))
 		return n
 	}
@@ -487,7 +491,9 @@ func (s *Sim) collect() {
 			for _, n := range s.nodes {
 				if vs := s.batchOwn[n.id]; len(vs) > 0 && n.alive {
 					s.shadowTick++
-					if s.shadowTick%3 == 0 || n.crashes > 0 {
+					// votes leaving while the node's persistence is held back by a slow ledger flush is exactly the
+					// situation the property forbids: always look; otherwise sample
+					if s.shadowTick%3 == 0 || n.crashes > 0 || n.led.pendingFlush() {
 						s.shadowCheck(n, vs)
 					}
 				}
@@ -1006,6 +1012,9 @@ func (Engine) Run(t *testing.T, prop, tier string, tape *kernel.Tape, keepLog bo
 	dir := filepath.Join(scratchRoot(), fmt.Sprintf("run%d", runCounter))
 	os.MkdirAll(dir, 0o755)
 	defer os.RemoveAll(dir)
+	if prop == "C36" {
+		return runKeySim(t, tape, tier, dir, keepLog)
+	}
 	var s *Sim
 	func() {
 		defer func() {
